@@ -114,6 +114,19 @@ pub fn purity_stream(ctx: &mut Ctx) {
         if failed {
             continue;
         }
+        // `Options::new(width)` / a bare width are the documented defaults of the active feature set
+        // (the functions that pick them are cfg-dependent and otherwise never compared)
+        {
+            let w = o.width;
+            let d1 = catch_unwind(AssertUnwindSafe(|| format!("{:?}", textwrap::wrap(&buf, w)))).unwrap_or_else(|_| "panic".into());
+            let d2 = catch_unwind(AssertUnwindSafe(|| format!("{:?}", textwrap::wrap(&buf, Opt::crate_default(w).to_options())))).unwrap_or_else(|_| "panic".into());
+            let d3 = catch_unwind(AssertUnwindSafe(|| format!("{:?}", textwrap::wrap(&buf, textwrap::Options::new(w))))).unwrap_or_else(|_| "panic".into());
+            if d1 != d2 || d3 != d2 {
+                ctx.fail("a bare width and Options::new(width) mean the documented default options", format!("wrap({}, {}) = {} / {} with Options::new, but {} with the documented defaults spelled out", crate::proto::show(&buf), w, short(&d1), short(&d3), short(&d2)), None);
+                continue;
+            }
+            ctx.oracle_ok();
+        }
         // same addresses, same byte lengths, different content
         let before = format!("{} / initial_indent {} / subsequent_indent {}", crate::proto::show(&buf), crate::proto::show(&o.ii), crate::proto::show(&o.si));
         buf.clear();
